@@ -40,7 +40,8 @@ Theorem C16_buf_step_conservation : forall (s : st) (o : op) (s' : st) (r : res)
       exists k, src s' = fetch_rest k (knd s) (src s) /\ lg = fetch_arrivals k (knd s) (src s) fs
   | Receive n fs | CReceive _ n fs =>
       exists item j, lg = item ++ concat (firstn j fs) /\ concat (src s) = item ++ concat (src s')
-  | _ => concat (src s) = lg ++ concat (src s')
+  | Exactly n fs | CExactly _ n fs =>
+      exists pulled, concat (src s) = pulled ++ concat (src s') /\ weave fs pulled lg
   end.
 Proof. exact step_conservation. Qed.
 Print Assumptions C16_buf_step_conservation.
@@ -94,7 +95,7 @@ Print Assumptions C16_buf_chunks_nonempty_invariant.
 
 (* ---- 3. receive_exactly(n): ValueError and nothing touched for n < 0; otherwise exactly n bytes off the front of the
         stream, or IncompleteRead, which happens iff the stream ends first; then everything read is in the buffer ---- *)
-Theorem C16_buf_exactly_spec : forall (s : st) (n : Z) (s' : st) (r : res), step s (Exactly n) = (s', r) ->
+Theorem C16_buf_exactly_spec : forall (s : st) (n : Z) (s' : st) (r : res), step s (Exactly n []) = (s', r) ->
   ((n < 0)%Z -> r = RValueError /\ s' = s) /\
   ((0 <= n)%Z ->
    ((exists x, r = RBytes x /\ length x = Z.to_nat n /\
@@ -103,6 +104,31 @@ Theorem C16_buf_exactly_spec : forall (s : st) (n : Z) (s' : st) (r : res), step
    (r = RIncomplete <-> (Z.of_nat (length (buf s ++ concat (src s))) < n)%Z)).
 Proof. exact buf_exactly_spec. Qed.
 Print Assumptions C16_buf_exactly_spec.
+
+(* ---- 3b. receive_exactly(n) with feed_data() by other tasks during its waits (fs: one entry per fetch).  `weave fs
+        pulled lg`: the arrival log lg is, fetch by fetch, the data fed during the wait followed by the chunk pulled
+        (nothing pulled by a fetch that meets the end of the stream).  The call hands out exactly the first n bytes in
+        arrival order and leaves the rest of what arrived in the buffer, in order - whatever is fed, however the wrapped
+        stream chunks; IncompleteRead only at the end of the wrapped stream, with everything that arrived buffered ---- *)
+Theorem C16_buf_exactly_fed_spec : forall (s : st) (n : Z) (fs : list (list Z)) (s' : st) (r : res) (lg : list Z),
+  (0 <= n)%Z -> step_log s (Exactly n fs) = (s', r, lg) ->
+  (exists pulled, concat (src s) = pulled ++ concat (src s') /\ weave fs pulled lg) /\
+  ((exists x, r = RBytes x /\ length x = Z.to_nat n /\ x ++ buf s' = buf s ++ lg) \/
+   (r = RIncomplete /\ src s' = [] /\ buf s' = buf s ++ lg /\ (Z.of_nat (length (buf s)) < n)%Z)).
+Proof. exact buf_exactly_fed_spec. Qed.
+Print Assumptions C16_buf_exactly_fed_spec.
+
+(* non-vacuity: receive_exactly(4) on a byte stream, 1 byte buffered, "XY" fed during the first wait: the fetch asked
+   for 3 bytes (computed before the wait) and got "bcd"; the call returns a X Y b and keeps "cd" - 4 bytes, in arrival
+   order.  Second conjunct: the feed arrives during a wait that ends in EndOfStream: IncompleteRead although 4 bytes are
+   now buffered (the wrapped stream IS at its end); nothing is lost, the next call gets them *)
+Theorem C16_buf_exactly_fed_nonvacuous : (
+  step_log (mk KByte [97] [[98; 99; 100]]) (Exactly 4 [[88; 89]])
+    = (mk KByte [99; 100] [], RBytes [97; 88; 89; 98], [88; 89; 98; 99; 100]) /\
+  step_log (mk KByte [97] []) (Exactly 4 [[88; 89; 90]]) = (mk KByte [97; 88; 89; 90] [], RIncomplete, [88; 89; 90]) /\
+  step (mk KByte [97; 88; 89; 90] []) (Exactly 4 []) = (mk KByte [] [], RBytes [97; 88; 89; 90]))%Z.
+Proof. vm_compute. auto. Qed.
+Print Assumptions C16_buf_exactly_fed_nonvacuous.
 
 (* ---- 4. receive_until(d, m) with feeds fs during its waits.  The call makes k fetches; a fetch happens only while
         what has arrived so far holds no delimiter and fewer than m bytes; the call ends with the first buffer that
@@ -205,13 +231,13 @@ Print Assumptions C16_buf_cancelled_consumes_nothing.
 
 Theorem C16_buf_entry_cancel : forall (s : st) (n : Z) (d : list Z) (m : Z) (fs : list (list Z)),
   step_log s (CReceive 0 n fs) = (s, RCancelled, []) /\
-  step_log s (CExactly 0 n) = (s, RCancelled, []) /\
+  step_log s (CExactly 0 n fs) = (s, RCancelled, []) /\
   step_log s (CUntil 0 d m fs) = (s, RCancelled, []).
 Proof. exact buf_entry_cancel. Qed.
 Print Assumptions C16_buf_entry_cancel.
 
 Theorem C16_buf_uncancelled_never_cancelled : forall (s : st) (o : op),
-  match o with CReceive _ _ _ | CExactly _ _ | CUntil _ _ _ _ => True | _ => snd (step s o) <> RCancelled end.
+  match o with CReceive _ _ _ | CExactly _ _ _ | CUntil _ _ _ _ => True | _ => snd (step s o) <> RCancelled end.
 Proof. exact buf_uncancelled_never_cancelled. Qed.
 Print Assumptions C16_buf_uncancelled_never_cancelled.
 
@@ -234,8 +260,8 @@ Print Assumptions C16_buf_receive_item_split_refuted_pinned.
 
 Theorem C16_buf_exactly_negative_refuted_pinned : exists c1 c2 n x1 x2 s1 s2 l1 l2,
   concat c1 = concat c2 /\ (n < 0)%Z /\
-  step_pinned (fst (fst (step_pinned (init KObject c1) (Receive 1%Z [])))) (Exactly n) = (s1, RBytes x1, l1) /\
-  step_pinned (fst (fst (step_pinned (init KObject c2) (Receive 1%Z [])))) (Exactly n) = (s2, RBytes x2, l2) /\
+  step_pinned (fst (fst (step_pinned (init KObject c1) (Receive 1%Z [])))) (Exactly n []) = (s1, RBytes x1, l1) /\
+  step_pinned (fst (fst (step_pinned (init KObject c2) (Receive 1%Z [])))) (Exactly n []) = (s2, RBytes x2, l2) /\
   x1 <> x2.
 Proof. exact exactly_negative_refuted_pinned. Qed.
 Print Assumptions C16_buf_exactly_negative_refuted_pinned.
